@@ -1616,12 +1616,18 @@ func (e *ForExpr) Value(ctx *hcl.EvalContext) (cty.Value, hcl.Diagnostics) {
 			} else {
 				k := key.AsString()
 				if _, exists := vals[k]; exists {
+					// The key is quoted in the message only when it carried no
+					// marks, since otherwise it might be sensitive.
+					keyDesc := "the same key"
+					if len(keyMarks) == 0 {
+						keyDesc = fmt.Sprintf("the key %q", k)
+					}
 					diags = append(diags, &hcl.Diagnostic{
 						Severity: hcl.DiagError,
 						Summary:  "Duplicate object key",
 						Detail: fmt.Sprintf(
-							"Two different items produced the key %q in this 'for' expression. If duplicates are expected, use the ellipsis (...) after the value expression to enable grouping by key.",
-							k,
+							"Two different items produced %s in this 'for' expression. If duplicates are expected, use the ellipsis (...) after the value expression to enable grouping by key.",
+							keyDesc,
 						),
 						Subject:     e.KeyExpr.Range().Ptr(),
 						Context:     &e.SrcRange,
